@@ -423,17 +423,65 @@ func (p *Prog) Field(pkg, typ, name string) *types.Var {
 			return st.Field(i)
 		}
 	}
+	// moved into an embedded part of the struct (mutateContext.commitActions -> mutateContext.deferredActions.
+	// commitActions)? a promoted field of that name is the same field to the rules
+	{
+		var hits []*types.Var
+		var walk func(s *types.Struct, depth int)
+		walk = func(s *types.Struct, depth int) {
+			for i := 0; i < s.NumFields(); i++ {
+				f := s.Field(i)
+				if !f.Embedded() || depth > 2 {
+					continue
+				}
+				et := f.Type()
+				if pt, isP := et.Underlying().(*types.Pointer); isP {
+					et = pt.Elem()
+				}
+				if es, isSt := et.Underlying().(*types.Struct); isSt {
+					for j := 0; j < es.NumFields(); j++ {
+						if es.Field(j).Name() == name {
+							hits = append(hits, es.Field(j))
+						}
+					}
+					walk(es, depth+1)
+				}
+			}
+		}
+		walk(st, 0)
+		if len(hits) == 1 {
+			p.RenamedAnchors = append(p.RenamedAnchors, key+" -> promoted field of an embedded struct")
+			return hits[0]
+		}
+	}
 	// renamed? an unexported field is also recognised by its type, when that type (as recorded on the
 	// pinned tree) is borne by exactly one field of the struct
 	if want, has := fieldAnchorTypes[key]; has && !token.IsExported(name) {
 		var hit *types.Var
 		cnt := 0
-		for i := 0; i < st.NumFields(); i++ {
-			if types.TypeString(st.Field(i).Type(), qual) == want {
-				hit = st.Field(i)
-				cnt++
+		var scan func(s *types.Struct, depth int)
+		scan = func(s *types.Struct, depth int) {
+			for i := 0; i < s.NumFields(); i++ {
+				f := s.Field(i)
+				if types.TypeString(f.Type(), qual) == want {
+					hit = f
+					cnt++
+				}
+				// ... also among the fields of embedded parts (the field moved there and was renamed on the way)
+				if f.Embedded() && depth < 2 {
+					et := f.Type()
+					if pt, isP := et.Underlying().(*types.Pointer); isP {
+						et = pt.Elem()
+					}
+					if es, isSt := et.Underlying().(*types.Struct); isSt {
+						if nm, isNamed := types.Unalias(et).(*types.Named); isNamed && nm.Obj().Pkg() == n.Obj().Pkg() {
+							scan(es, depth+1)
+						}
+					}
+				}
 			}
 		}
+		scan(st, 0)
 		if cnt == 1 {
 			p.RenamedAnchors = append(p.RenamedAnchors, key+" -> "+hit.Name())
 			return hit
